@@ -6,6 +6,8 @@
      postVTHO + sum(paid) + burnVTHO = preVTHO + sum(reward) + issued
      per receipt: paid = gasUsed * EffPrice, EffPrice >= base fee, reward by the pre/post GALACTICA rule
      issued = StakingReward(curve, locked stake) when proof of stake is active, else 0
+     per account (every gas payer, the beneficiary, the delegator contract): energy delta = received - sent - fees paid
+             + rewards and validator share (beneficiary) + delegators' share (delegator contract)
      header: gas used = sum of receipts <= gas limit; base fee absent before GALACTICA, = floor at the fork block,
              = NextBaseFee(parent gas limit, parent gas used, parent base fee) after it, |delta| <= parent/8, >= floor;
              the parent fields must be the ones recorded when the parent itself was observed (H), so the base fee is a
@@ -45,6 +47,15 @@ ReceiptOK(r) ==
 
 DefaultCurve == FromInt(76800)
 
+\* who is charged, who is credited.  For every gas payer, the beneficiary and the delegator contract of a block:
+\*   energy after - energy before (both at the block time)
+\*      = energy received - energy sent (Transfer events of the receipts)  - fees paid as gas payer
+\*        + (beneficiary) all rewards + the validator's share of the block reward  + (delegator contract) the delegators' share
+FlowOK(fl, rewards, valShare, delShare) ==
+  LET credit == Add(fl.evIn, Add(IF fl.benef THEN Add(rewards, valShare) ELSE Zero, IF fl.deleg THEN delShare ELSE Zero))
+      debit == Add(fl.evOut, fl.paid)
+  IN IF fl.deltaNeg THEN Add(credit, fl.delta) = debit ELSE credit = Add(debit, fl.delta)
+
 BlockOK(ev) ==
   LET rs == ev.rcpts
       par == ev.par
@@ -52,7 +63,11 @@ BlockOK(ev) ==
       gal == G >= 0 /\ ev.num >= G
       curve == IF Len(ev.curve) = 0 THEN DefaultCurve ELSE ev.curve
       issue == IF ev.pos THEN StakingReward(curve, ev.staked) ELSE Zero
+      splitNow == ev.pos /\ ev.split /\ ev.pct < 100
+      valShare == IF splitNow THEN DivSmall(MulSmall(issue, ev.pct), 100) ELSE issue
+      delShare == Sub(issue, valShare)
   IN /\ ev.parent \in DOMAIN H /\ HdrOf(par) = H[ev.parent]
+     /\ \A i \in 1..Len(ev.flows) : FlowOK(ev.flows[i], SumField(rs, 1, "reward"), valShare, delShare)
      \* conservation
      /\ Add(ev.postVET, ev.burnVET) = Norm(ev.preVET)
      /\ ev.issued = issue
